@@ -1184,6 +1184,14 @@ class Trimesh(Geometry3D):
 
         # create the inverse mask if not passed
         if inverse is None:
+            if mask.dtype.kind in "bi" and util.is_shape(self.faces, (-1, 3)):
+                # a face referencing a vertex that is being removed can't
+                # be re-indexed: drop it rather than pointing it at vertex 0
+                kept = np.zeros(len(self.vertices), dtype=bool)
+                kept[mask] = True
+                face_ok = kept[self.faces].all(axis=1)
+                if not face_ok.all():
+                    self.update_faces(face_ok)
             inverse = np.zeros(len(self.vertices), dtype=int64)
             if mask.dtype.kind == "b":
                 inverse[mask] = np.arange(mask.sum())
